@@ -10,6 +10,7 @@ before/after, side-effect canary, second expansion of TAL-free documents); pytho
 the real TALFileHandler with its allowpythonpath option.  B3: spec/trace/TraceC18.tla judges every run."""
 from __future__ import annotations
 
+import html
 import json
 import os
 import random
@@ -17,10 +18,13 @@ import random
 from harness import c17, core
 
 INVS18 = ["Terminates", "Escaped", "AttrEscaped", "PythonGated", "ContextRestored", "PassThrough"]
+# `own`: the C18 families (thorough: their large option sets); `tal`: C17's template families, always with the quick-tier
+# option sets (they serve ContextRestored / Escaped on ordinary templates), thorough: with both contexts
 TIERS = {
-    "quick": dict(parts=[["esc", "py"], ["doc"], ["expr", "void", "deep"], ["one0"], ["nestq1"], ["metal0"]], ctxs=["A"], esclen=2),
-    "thorough": dict(parts=[["esc", "py"], ["doc"], ["expr", "void", "deep"], ["one0"], ["one1"], ["one2"], ["nestq0"], ["nestq1"],
-                            ["nestq2"], ["metal0"], ["metal1"]], ctxs=["A", "B"], esclen=3),
+    "quick": dict(own=[(["esc", "py"], 1), (["doc"], 1)], tal=[(["expr", "void", "deep", "metalx"], 1), (["one"], 3), (["nest"], 2), (["metal"], 1)],
+                  ctxs=["A"], esclen=2),
+    "thorough": dict(own=[(["esc"], 4), (["py"], 1), (["doc"], 1)], tal=[(["expr", "void", "deep", "metalx"], 1), (["one"], 3), (["nest"], 3), (["metal"], 2)],
+                     ctxs=["A", "B"], esclen=3),
 }
 HANDLERS = "[tal.TALFileHandler, file.FileHandler]"
 
@@ -46,6 +50,7 @@ def _handler_job(job):
             return o
         text, _ = c17_tal.render_template(subst(tree), consts["VoidTags"])
         w.write("t.html.tal", text.encode())
+        text = text.replace(html.escape(canary, quote=True), "CANARY").replace(canary, "CANARY")      # stable violation key
         r = w.request(b"/t.html.tal\r\n")
         n = 0
         if os.path.exists(canary):
@@ -111,9 +116,15 @@ def main(chk, replay=None):
         cases = c17.load_replay(replay)
         with open(replay) as fp:
             kind = json.load(fp)["case"].get("kind", "direct")
-        _c, contexts, tot = c17.model_check(chk, [["py"]], t["ctxs"], INVS18, consts_text, esclen=1, module="MC_C18")
+        _c, contexts, tot = c17.model_check(chk, [(["py"], 1)], t["ctxs"], INVS18, consts_text, esclen=1, module="MC_C18")
     else:
-        cases, contexts, tot = c17.model_check(chk, t["parts"], t["ctxs"], INVS18, consts_text, esclen=t["esclen"], module="MC_C18")
+        cases, contexts, tot = c17.model_check(chk, t["own"], t["ctxs"], INVS18, consts_text, esclen=t["esclen"], module="MC_C18")
+        cases2, contexts2, tot2 = c17.model_check(chk, t["tal"], t["ctxs"], INVS18, consts_text, esclen=t["esclen"], module="MC_C18", quick=True)
+        cases += cases2
+        contexts.update(contexts2)
+        for k in ("distinct", "generated"):
+            tot[k] += tot2[k]
+        tot["wall"] += tot2["wall"]
         kind = None
     random.Random(chk.seed).shuffle(cases)
     runs = [] if kind == "handler" else c17.run_cases(cases, contexts, consts, want_tokens=True)
@@ -147,7 +158,7 @@ def main(chk, replay=None):
                 "through the real TALFileHandler; non-trivial = distinct esc templates whose substituted value contains a markup "
                 "metacharacter (%d) + distinct TAL-free document spellings expanded twice (%d) + handler runs (%d) + runs in "
                 "which the Context's local/repeat stacks were actually pushed and found empty again (%d)"
-                % (t["parts"], t["ctxs"], t["esclen"], esc_nontrivial, docs, len(hruns), pushes),
+                % (t["own"] + t["tal"], t["ctxs"], t["esclen"], esc_nontrivial, docs, len(hruns), pushes),
         "samples": [{"template": r["text"], "doc": r["final"]["doc"], "canary": r["final"]["canary"]} for r in runs[:2] + hruns[:2]],
         "checker_cmd": tot["cmd"] + " ; " + tv["cmd"],
         "trace_states": tv["states"], "constants_bound": bound,
